@@ -698,7 +698,8 @@ impl Packet {
                 if value.len() > 12 && value.len() < 269 {
                     header.push((value.len() - 13) as u8);
                 } else if value.len() >= 269 {
-                    let fix = (value.len() - 269) as u16;
+                    let fix = u16::try_from(value.len() - 269)
+                        .map_err(|_| MessageError::InvalidOptionLength)?;
                     header.push((fix >> 8) as u8);
                     header.push((fix & 0xFF) as u8);
                 }
